@@ -72,3 +72,63 @@ package destination
 //@   requires w != nil
 //@   modifies *
 //@   ensures[rep; C05] result != nil && len(result.buf) == size && result.n == 0 && result.wr == w && result.err == nil
+
+// ---------------------------------------------------------------- destination.go: relay (C06, C14)
+// The two helpers of the relay loop never block, and a line they cannot hand on is counted.
+//@ func destination.Destination.relay$1(buf []byte)
+//@   property C06
+//@   nonblocking
+//@   requires conn != nil && conn.In != nil && !closed(conn.In) && dest != nil && dest.numDropSlowConn != nil
+//@   modifies *
+//@   ensures[sent_or_counted; C06] (sent(conn.In) == old(sent(conn.In)) ++ elemOf(buf) && dest.numDropSlowConn.count == old(dest.numDropSlowConn.count))
+//@        || (sent(conn.In) == old(sent(conn.In)) && dest.numDropSlowConn.count == old(dest.numDropSlowConn.count) + 1 && dest.SlowNow)
+//@
+//@ func destination.Destination.relay$2(buf []byte)
+//@   property C06,C07
+//@   nonblocking
+//@   requires dest != nil && dest.spool != nil && dest.spool.InRT != nil && !closed(dest.spool.InRT) && dest.numDropSlowSpool != nil
+//@   modifies *
+//@   ensures[spooled_or_counted; C07] (sent(dest.spool.InRT) == old(sent(dest.spool.InRT)) ++ elemOf(buf) && dest.numDropSlowSpool.count == old(dest.numDropSlowSpool.count))
+//@        || (sent(dest.spool.InRT) == old(sent(dest.spool.InRT)) && dest.numDropSlowSpool.count == old(dest.numDropSlowSpool.count) + 1)
+
+//@ func (s *Spool) Close()
+//@   trusted
+//@   modifies *
+//@ func (dest *Destination) updateConn(addr string)
+//@   trusted
+//@   modifies *
+//@ func (dest *Destination) collectRedo(conn *Conn)
+//@   trusted
+//@   modifies *
+//@
+//@ spec relayWf(dest *Destination) bool := destParamsOK(dest) && dest.In != nil && dest.numDropNoConnNoSpool != nil && dest.numDropSlowSpool != nil && dest.numDropSlowConn != nil
+//@      && dest.numDropNoConnNoSpool.ref != dest.numDropSlowSpool.ref && dest.numDropNoConnNoSpool.ref != dest.numDropSlowConn.ref && dest.numDropSlowSpool.ref != dest.numDropSlowConn.ref
+//@      && (dest.Spool ==> dest.spool != nil && dest.spool.InRT != nil && !closed(dest.spool.InRT))
+//@      && dest.flushErr != nil && !closed(dest.flushErr)
+//@ spec connWf(c *Conn) bool := c != nil ==> (c.In != nil && c.keepSafe != nil && c.flush != nil && c.flushErr != nil
+//@      && c.shutdown != nil && c.conn != nil && c.keepSafe.closed != nil && !c.upMutex.held && !c.keepSafe.Mutex.held)
+//@ // channels of a live connection are open; each is created by its own make() and closed only by its owner
+//@ spec connOpen(c *Conn) bool := c != nil ==> (!closed(c.In) && !closed(c.flush) && !closed(c.flushErr) && !closed(c.shutdown) && !closed(c.keepSafe.closed))
+//@
+//@ // every connection handed to the relay loop is a complete one (NewConn builds it)
+//@ chan_invariant destination.Destination.connUpdates(c *Conn) := c != nil && connWf(c)
+//@
+//@ // The relay event loop. Per iteration that takes a line from dest.In: the line goes to exactly
+//@ // one place and, unless it is handed on, exactly one drop counter is incremented.
+//@ func (dest *Destination) relay()
+//@   property C06,C07,C14
+//@   requires relayWf(dest)
+//@   modifies *
+//@   loop 1:
+//@     invariant[wf_dest] relayWf(dest)
+//@     invariant[wf_conn] connWf(conn)
+//@     invariant[wf_ticker] ticker != nil && ticker.C != nil
+//@     assumed_invariant[channel_ownership] !closed(dest.In) && connOpen(conn) && (signalConnOnline == nil || !closed(signalConnOnline)) && (conn != nil && signalConnOnline != nil ==> signalConnOnline != conn.keepSafe.closed)
+//@   branch "<-dest.In":
+//@     ensures[accounted; C06] exists e elem :: recvd(dest.In) == old(recvd(dest.In)) ++ e && (
+//@           (conn != nil && sent(conn.In) == old(sent(conn.In)) ++ e && dest.numDropSlowConn.count == old(dest.numDropSlowConn.count))
+//@        || (conn != nil && sent(conn.In) == old(sent(conn.In)) && dest.numDropSlowConn.count == old(dest.numDropSlowConn.count) + 1)
+//@        || (conn == nil && dest.Spool && sent(dest.spool.InRT) == old(sent(dest.spool.InRT)) ++ e && dest.numDropSlowSpool.count == old(dest.numDropSlowSpool.count))
+//@        || (conn == nil && dest.Spool && sent(dest.spool.InRT) == old(sent(dest.spool.InRT)) && dest.numDropSlowSpool.count == old(dest.numDropSlowSpool.count) + 1)
+//@        || (conn == nil && !dest.Spool && dest.numDropNoConnNoSpool.count == old(dest.numDropNoConnNoSpool.count) + 1))
+//@     ensures[conn_down_no_spool_counts; C06] conn == nil && !dest.Spool ==> dest.numDropNoConnNoSpool.count == old(dest.numDropNoConnNoSpool.count) + 1
